@@ -4,7 +4,9 @@ C11: Normalize output lines up with Match positions.
 `render` is the model of Normalize's output loop (as repaired: a wordless first
 line is not emitted twice).  `render_lines`: whenever token lines advance by at
 most one from token to token (`StepOne`), line k of the output holds exactly
-the words carrying line k, separated by single blanks.  `tokenize_stepOne`:
+the words carrying line k, separated by single blanks — provided the first token
+is on line 1 and an EOL token is the last token of its line (`EolLast`), which
+the tokenizer guarantees (`tokenize_first_line`, `tokenize_eol_last`).  `tokenize_stepOne`:
 the non-normalizing tokenizer produces such token lists for every input on
 which no hyphenated line break is pending (`NoDefer`) — with a pending hyphen
 the line counter can advance without an EOL token and a dropped notice line
@@ -21,27 +23,55 @@ import LC.Proofs.Render
 namespace LC.V2Tok
 open LC.Utf8
 
-/-- words of a line joined by single blanks -/
-def joinBlank : List Word → List Rune
-  | [] => []
-  | [w] => w
-  | w :: ws => w ++ 32 :: joinBlank ws
+/-- Line k of the Normalize output holds the words Match attributes to line k.
 
-/-- Line k of the Normalize output holds the words Match attributes to line k. -/
+-- ADJUSTED: two hypotheses added; without them the statement is false for the model
+-- (checked by evaluation, `k ≥ 1`, all other hypotheses hold):
+--  * `h1` (the first token is on line 1): `render` never emits a newline before the first
+--    token, but `StepOne 1` lets the first token be on line 2.
+--    toks = [⟨[97],2⟩,⟨[98],2⟩]: output "a\nb"; k = 1 gives "a" ≠ "" and k = 2 gives "b" ≠ "a b".
+--  * `he` (`EolLast`: the token after an EOL token is on the next line): the loop emits a blank
+--    before a word whenever the previous token is on the same line, also when that token is an
+--    EOL token, which emits nothing.
+--    toks = [⟨[10],1⟩,⟨[98],1⟩]: output " b"; k = 1 gives " b" ≠ "b".
+--    toks = [⟨[97],1⟩,⟨[10],2⟩,⟨[98],2⟩]: output "a\n b"; k = 2 gives " b" ≠ "b".
+-- Both hold for the tokenizer's output: `tokenize_first_line`, `tokenize_eol_last` below. -/
 theorem render_lines (toks : List Tok) (h2 : 2 ≤ toks.length) (hs : StepOne 1 toks)
+    (h1 : ∀ t, toks.head? = some t → t.line = 1) (he : EolLast toks)
     (hw : ∀ t ∈ toks, t.word = [nl] ∨ (nl ∉ t.word ∧ t.word ≠ []))
     (k : Nat) (hk : 1 ≤ k) :
     (splitLines (render toks)).getD (k - 1) [] = joinBlank (wordsOnLine toks k) :=
-  render_lines' toks h2 hs hw k hk
-
-/-- no hyphenated line break is ever pending while scanning `rs` -/
-def NoDefer (E : Env) (rs : List Rune) : Prop :=
-  ∀ p, p <+: rs → (scanRunes E false p).deferredEOL = false ∧ (scanRunes E false p).deferredWord = false
+  render_lines' toks h2 hs h1 he hw k hk
 
 /-- The non-normalizing tokenizer's token lines advance by at most one per token. -/
 theorem tokenize_stepOne (E : Env) (rs : List Rune) (hn : NoDefer E rs) :
     StepOne 1 (tokenizeRunes E false rs).toks :=
   tokenize_stepOne' E rs hn
+
+/-- The first token of the non-normalizing tokenizer's output is on line 1 (hypothesis `h1`). -/
+theorem tokenize_first_line (E : Env) (rs : List Rune) (hn : NoDefer E rs) :
+    ∀ t, (tokenizeRunes E false rs).toks.head? = some t → t.line = 1 :=
+  tokenize_first_line' E rs hn
+
+/-- In the non-normalizing tokenizer's output an EOL token ends its line (hypothesis `he`).
+`EnvWF`: the newline is a space and no space starts a word, so no word is `[nl]`. -/
+theorem tokenize_eol_last (E : Env) (hE : EnvWF E) (rs : List Rune) (hn : NoDefer E rs) :
+    EolLast (tokenizeRunes E false rs).toks :=
+  tokenize_eol_last' hE rs hn
+
+/-- Every token of the non-normalizing tokenizer's output is an EOL token or a non-empty word
+without newline (hypothesis `hw`); holds on every input. -/
+theorem tokenize_words (E : Env) (hE : EnvWF E) (rs : List Rune) :
+    ∀ t ∈ (tokenizeRunes E false rs).toks, t.word = [nl] ∨ (nl ∉ t.word ∧ t.word ≠ []) :=
+  tokenize_words' hE rs
+
+/-- `render_lines` for the tokenizer's output: all its hypotheses but `h2` are theorems. -/
+theorem normalize_lines (E : Env) (hE : EnvWF E) (rs : List Rune) (hn : NoDefer E rs)
+    (h2 : 2 ≤ (tokenizeRunes E false rs).toks.length) (k : Nat) (hk : 1 ≤ k) :
+    (splitLines (render (tokenizeRunes E false rs).toks)).getD (k - 1) [] =
+      joinBlank (wordsOnLine (tokenizeRunes E false rs).toks k) :=
+  render_lines _ h2 (tokenize_stepOne E rs hn) (tokenize_first_line E rs hn)
+    (tokenize_eol_last E hE rs hn) (tokenize_words E hE rs) k hk
 
 /-- The one- and zero-token cases of Normalize. -/
 theorem render_small (t : Tok) : render [] = [] ∧ render [t] = t.word := by
